@@ -172,13 +172,19 @@ func rollRealOne(r *hx.Result, dir string, k int, seed int64, seconds int) *rrRu
 	half := time.Now().Add(time.Until(deadline) / 2)
 	writePhase(half)
 	// stop/start cycle with no write in progress, inside one second
-	app.Stop()
+	if ret, p := hx.Within(8*time.Second, func() { app.Stop() }); !ret || p != nil {
+		r.Violate("blocked:stop:rolling", map[string]any{"phase": "restart"}, "Stop returned=%v panic=%v", ret, p)
+		return nil
+	}
 	if err := app.Start(); err != nil {
 		r.SetInfra("rolling restart: %v", err)
 		return nil
 	}
 	writePhase(deadline)
-	app.Stop()
+	if ret, p := hx.Within(8*time.Second, func() { app.Stop(); app.Stop() }); !ret || p != nil {
+		r.Violate("blocked:stop:rolling", map[string]any{"phase": "end, stopped twice"}, "Stop returned=%v panic=%v", ret, p)
+		return nil
+	}
 	run.T1 = time.Now().Unix()
 	// read the directory
 	ents, _ := os.ReadDir(dir)
